@@ -77,6 +77,8 @@ def mutants(rng, rd, ws0, names, byte_budget, per_kind):
         cuts |= set(range(0, last_gt + 1))
     else:
         cuts |= set(rng.sample(range(0, last_gt + 1), min(byte_budget, last_gt + 1)))
+    if len(cuts) > 3 * byte_budget:
+        cuts = set(rng.sample(sorted(cuts), 3 * byte_budget))
     for c in sorted(cuts):
         yield ("truncation", text[:c])
     ends = [i for i, p in enumerate(ps) if p[0] in ("end", "aggend")]
@@ -319,9 +321,13 @@ def run(rep, tier, rng):
         rep.sample({"text": texts[2 * k], "implementation": S.impl_parse(P, texts[2 * k])})
     small_t = [t for t in texts if len(t) <= 400]
     big_t = [t for t in texts if len(t) > 400]
-    S.correspond(rep, "mutants", variant, small_t, P, shard=1500 if thorough else 1100)
-    if big_t:
-        S.correspond(rep, "mutants-large", variant, big_t, P, shard=40 if thorough else 12)
+    from concurrent.futures import ThreadPoolExecutor
+    with ThreadPoolExecutor(2) as ex:          # the two case sets are evaluated side by side
+        f1 = ex.submit(S.correspond, rep, "mutants", variant, small_t, P, False, 1500 if thorough else 1100)
+        f2 = ex.submit(S.correspond, rep, "mutants-large", variant, big_t, P, False, 40 if thorough else 12) if big_t else None
+        f1.result()
+        if f2:
+            f2.result()
 
 
 def replay(obj):
